@@ -55,6 +55,7 @@ Op(e) ==
       [] e.a = "drop_sample" -> DropSample(e.s, e.id)
       [] e.a = "update_sub"  -> UpdateSub(e.s) /\ out'.r = e.r
       [] e.a = "has"         -> HasSamples(e.s) /\ out'.r = e.r /\ out'.v = e.v
+      [] e.a = "panic"       -> e.cls = "expired-borrowed" /\ e.at \in {"recv", "has", "update_sub"} /\ PanicExpiredBorrows(e.s)
       [] e.a = "break_seg"   -> BreakSeg(e.p)
       [] e.a = "occupy"      -> Occupy(e.p, e.s)
       [] OTHER -> FALSE
@@ -65,8 +66,21 @@ Consume ==
     /\ LET e == Rec[l] IN
        CASE e.k = "reset" -> QosOK(QosOf(e)) /\ Reset(QosOf(e))
          [] e.k = "op"    -> Clean(e) /\ Op(e)
-         [] e.k = "end"   -> Idle /\ UNCHANGED vars /\ PrintT(<<"KD_PATH", l, kd>>)   \* one line per explanation of the run
+         [] e.k = "end"   -> (Idle \/ out.a \in {"panic", "skip"}) /\ UNCHANGED vars /\ PrintT(<<"KD_PATH", l, kd>>)   \* one line per explanation of the run
          [] OTHER -> FALSE
+
+\* known-defect shape "stale-connection-key" (PubSub.tla GkInit): once the precondition occurred for some
+\* subscriber, the rest of the run may be given up; the run is then explained only through a TAGGED path
+RECURSIVE NextEnd(_)
+NextEnd(i) == IF i > NRec THEN NRec + 1 ELSE IF Rec[i].k = "end" THEN i ELSE NextEnd(i + 1)
+SkipRun ==
+    /\ AllowKnown
+    /\ l <= NRec /\ Rec[l].k = "op"
+    /\ \E s \in SubIds : gk.stale[s]
+    /\ l' = NextEnd(l)
+    /\ kd' = kd \cup {KD_StaleKey}
+    /\ out' = [a |-> "skip"]
+    /\ UNCHANGED <<sysvars, slog, regAt, rcvd, evicted, xlost, gk>>
 
 \* deliveries of a split send that need no handler call leave no record (bounded: snd.pend shrinks)
 Silent == l <= NRec /\ (\E s \in SubIds : Deliver(s)) /\ UNCHANGED l
@@ -74,7 +88,7 @@ Silent == l <= NRec /\ (\E s \in SubIds : Deliver(s)) /\ UNCHANGED l
 \* overlapping calls of concurrent executions: alternatives, see TraceIO.tla
 AltJump == IsAltRec(l) /\ l' \in AltTargets(l) /\ UNCHANGED vars
 
-TraceNext == Consume \/ AltJump \/ Silent
+TraceNext == Consume \/ AltJump \/ Silent \/ SkipRun
 TraceSpec == TraceInit /\ [][TraceNext]_tvars
 
 Progress == TraceProgress(l)
